@@ -19,7 +19,8 @@ for mp in sorted(glob.glob(os.path.join(V, "seeded", "*", "meta.json"))):
     ep = os.path.join(os.path.dirname(mp), "eval.json")
     ev = json.load(open(ep)) if os.path.exists(ep) else None
     if ev:
-        caught = "yes" if ev.get("caught") else "no"
+        own = ev.get("caught_own_property", ev.get("caught"))
+        caught = "yes" if own else ("via another property" if ev.get("caught") else ("no (undecided, exit 2)" if any(c["exit"] == 2 for c in ev["checks"]) else "no"))
         by = []
         for c in ev["checks"]:
             if c["exit"] == 1:
